@@ -50,6 +50,10 @@ CLAIMED = {
          "Machine-checked proof over a transcription of simcam_set/get/get_frame and the byte extents of the renderers; correspondence and exact-extent validation on every run.",
          "Trusted: Lean kernel; AVX2 lane semantics (only touched bytes modelled); the cascade's pass schedule tied indirectly through allocated sizes and ASan-clean runs; realloc failure not modelled; set while running (races the streamer) is outside the quantifier.",
          "DESIGN.md section 5, C17"),
+ "C18": ("lean-simconc", "Lean 4 theorems over an interleaving model of simulated.camera.c at synchronisation-call granularity (streamer thread + two caller threads, mutex/condvar transitions): delivered ids strictly increase and count generated frames, delivered <= triggers when gated, no lost wake-up for a pending frame call or a streamer waiting for a trigger, stop's join terminates (decreasing measure), for every schedule and caller history; tie: step-by-step co-simulation of the real simulated.camera.c + HAL camera.c on detsched over schedules enumerated by deviation bounding, client-view oracle",
+         "Machine-checked proof for all schedules and caller scripts of the model; co-simulation of every scheduler step with the real code on every run.",
+         "Trusted: Lean kernel; detsched; atomic steps between synchronisation calls; camera kind Empty (rendering trivial), simcam_set never fails; fairness for the termination conclusions; the set(off) race (streamer may sleep with the trigger disabled) is outside C18's statement and proved reachable.",
+         "DESIGN.md section 5, C18"),
 }
 PLANNED = {}
 ALL = ["C%02d" % i for i in range(1, 19)]
@@ -92,6 +96,7 @@ def main():
             {"name": "lean-storage", "path": "lean/AcqVerif/Storage", "serves_properties": ["C14", "C16"], "kind_free_text": "OS model, file_write, raw/tiff/tiff-json/trash I/O skeletons, HAL storage; harness harness/storage_io"},
             {"name": "lean-tiff", "path": "lean/AcqVerif/Tiff", "serves_properties": ["C15"], "kind_free_text": "BigTIFF writer model, independent reader, JSON description scanner; harness harness/tiff"},
             {"name": "lean-simcam", "path": "lean/AcqVerif/Simcam", "serves_properties": ["C17"], "kind_free_text": "simulated camera configuration/buffer-extent model; harness harness/simcam_shape"},
+            {"name": "lean-simconc", "path": "lean/AcqVerif/SimConc", "serves_properties": ["C18"], "kind_free_text": "simulated camera thread-protocol model; harness harness/simcam_conc on detsched"},
             {"name": "lean-sprops", "path": "lean/AcqVerif/SProps", "serves_properties": ["C13"], "kind_free_text": "StorageProperties heap model; harness harness/props"},
         ],
         "checks": checks,
